@@ -174,19 +174,14 @@ class FaultHandlerOverrideTlv(AbstractTlvBase):
 
     @classmethod
     def unpack(cls, data: bytes) -> FaultHandlerOverrideTlv:
-        fault_handler_ovr_tlv = cls.__empty()
-        fault_handler_ovr_tlv.tlv = CfdpTlv.unpack(data=data)
-        fault_handler_ovr_tlv.check_type(tlv_type=FaultHandlerOverrideTlv.TLV_TYPE)
-        fault_handler_ovr_tlv.condition_code = (
-            fault_handler_ovr_tlv.tlv.value[0] & 0xF0
-        ) >> 4
-        fault_handler_ovr_tlv.handler_code = fault_handler_ovr_tlv.tlv.value[0] & 0x0F
-        return fault_handler_ovr_tlv
+        return cls.from_tlv(CfdpTlv.unpack(data=data))
 
     @classmethod
     def from_tlv(cls, cfdp_tlv: CfdpTlv) -> FaultHandlerOverrideTlv:
         if cfdp_tlv.tlv_type != cls.TLV_TYPE:
             raise TlvTypeMissmatch(cfdp_tlv.tlv_type, cls.TLV_TYPE)
+        if len(cfdp_tlv.value) < 1:
+            raise BytesTooShortError(1, len(cfdp_tlv.value))
         fault_handler_tlv = cls.__empty()
         fault_handler_tlv.tlv = cfdp_tlv
         fault_handler_tlv.condition_code = (cfdp_tlv.value[0] >> 4) & 0x0F
